@@ -100,12 +100,14 @@ func (c *RawEVMConfig) Validate() error {
 // raw chain config
 func NewEVMConfig(chainConfig map[string]interface{}) (*EVMConfig, error) {
 	var c RawEVMConfig
-	err := mapstructure.Decode(chainConfig, &c)
+	// defaults first: decoding then overwrites them with every value that was written,
+	// so an explicit zero reaches Validate instead of being replaced by the default
+	err := defaults.Set(&c)
 	if err != nil {
 		return nil, err
 	}
 
-	err = defaults.Set(&c)
+	err = mapstructure.Decode(chainConfig, &c)
 	if err != nil {
 		return nil, err
 	}
